@@ -51,4 +51,37 @@ def findInvalidIntersection (flag : Bool) (s t : RSeg) : Option Nat :=
           if isCrossing intPt e00 e01 e10 e11 then some eSelfIntersection else none
       | _ => none
 
+/-! ### the analyzer's state over the pairs it is shown -/
+
+/-- a ring string as the C++ sees it: identity (`ss0 == ss1` is equality of `rid`) and its points -/
+structure RingStr where
+  rid : Nat
+  pts : List Pt
+deriving Repr, Inhabited
+
+/-- segment `k` of a ring string with what `findInvalidIntersection` reads: `getCoordinate(k)`, `getCoordinate(k + 1)`,
+`size() - 1` segments, and `prevCoordinateInRing(ss, k)` (`size() - 2` for `k = 0`) -/
+def RingStr.seg (r : RingStr) (k : Nat) : RSeg :=
+  ⟨0, r.rid, k, r.pts.length - 1, r.pts.getD (if k = 0 then r.pts.length - 2 else k - 1) default, r.pts.getD k default,
+   r.pts.getD (k + 1) default⟩
+
+/-- the C++ return value: `oNoInvalidIntersection` = −1, else the error code -/
+def codeInt : Option Nat → Int
+  | none => -1
+  | some c => c
+
+/-- `PolygonIntersectionAnalyzer::processIntersections`: the member `invalidCode` after the analyzer has been shown the pair
+(`none` = `oNoInvalidIntersection`); a segment is not tested with itself, a valid pair leaves the recorded code alone, an
+invalid pair overwrites it -/
+def processIntersections (flag : Bool) (invalidCode : Option Nat) (s t : RSeg) : Option Nat :=
+  if s.rid == t.rid && s.k == t.k then invalidCode
+  else
+    match findInvalidIntersection flag s t with
+    | some c => some c
+    | none => invalidCode
+
+/-- the analyzer after a sequence of pairs (in the order the noder presents them), starting from "no invalid intersection" -/
+def processAll (flag : Bool) (pairs : List (RSeg × RSeg)) : Option Nat :=
+  pairs.foldl (fun code st => processIntersections flag code st.1 st.2) none
+
 end GeosModel.Valid
